@@ -36,6 +36,9 @@ package errors
 //@   ensures [error_page_once] (panicked == 0 && nextRet >= 400 && !(result1 != nil && h.Debug)) ==> (errBodies == old(errBodies) + 1 && lastStatus == nextRet && result0 == 0)
 //@   ensures [debug_writes_once] (panicked == 0 && result1 != nil && h.Debug) ==> (result0 == 0 && hw >= old(hw) + 1 && bodyWrites >= old(bodyWrites) + 1 && errBodies == old(errBodies))
 //@   ensures [success_untouched] (panicked == 0 && nextRet < 400 && result1 == nil) ==> (result0 == nextRet && errBodies == old(errBodies))
+//@   // a status below 400 WITH an error is casket's "response already written, log this" (fastcgi stderr output, templates):
+//@   // outside debug mode the handler logs it and answers nothing itself - no error page on top of the written response
+//@   ensures [written_response_with_logged_error_untouched] (panicked == 0 && nextRet < 400 && !h.Debug) ==> (result0 == nextRet && errBodies == old(errBodies))
 //@   ensures [panic_contained] panicked == 1 ==> (result0 == 0 && hw >= old(hw) + 1 && lastStatus == 500)
 
 //@ unit setup_sweep props=C11,C08 files=setup.go nilchecks=on nonnil_params=on dispenser_variants=on exclude=`errors\.(errorsParse|errorsParse\$1|setup)$` filter=`.`
